@@ -28,6 +28,32 @@ func jobsFor(prop, tier string) []*Job {
 				Params: p("n", n, "wmax", wmax), Unwind: 2*n*wmax + 8,
 				Bounds: fmt.Sprintf("n=%d servers, weights symbolic in [0,%d] not all zero, every window offset k0 in [0,W), window length W=sum/gcd", n, wmax)})
 		}
+	case "C03", "C13":
+		tpts := []int{1, 333333333, 1000000000}
+		if thorough {
+			tpts = []int{1, 3, 1000, 333333333, 1000000000, 60000000000}
+			if prop == "C13" {
+				tpts = append(tpts, 0)
+			}
+		}
+		bd := "one step from an arbitrary invariant-satisfying bucket state: tpt=%s, 1<=burst<=2^20, 0<=avail<=burst, 0<=age<tpt, gap<=2^44 ns, 0<=tokens<=2^21; inductive, covers histories of any length"
+		for _, t := range tpts {
+			ts := fmt.Sprint(t, " ns/token")
+			if t == 0 {
+				ts = "symbolic in [1,2^36] ns/token"
+			}
+			b := fmt.Sprintf(bd, ts)
+			if prop == "C03" {
+				add(&Job{Name: fmt.Sprintf("O1-potential/tpt=%d", t), Pkg: "ratelimit", Harness: "VerifC03Potential", Params: p("tpt", t), SkipInc: true, TimeoutS: 120, IncMs: 500, Bounds: b, Inductive: true})
+			} else {
+				add(&Job{Name: fmt.Sprintf("O1O2O4-bucket/tpt=%d", t), Pkg: "ratelimit", Harness: "VerifC13Bucket", Params: p("tpt", t), SkipInc: true, TimeoutS: 120, IncMs: 500, Bounds: b, Inductive: true})
+				add(&Job{Name: fmt.Sprintf("O3-idle/tpt=%d", t), Pkg: "ratelimit", Harness: "VerifC13Idle", Params: p("tpt", t), SkipInc: true, TimeoutS: 120, IncMs: 500, Bounds: b, Inductive: true})
+			}
+		}
+		if prop == "C13" {
+			add(&Job{Name: "O1O4-set2", Pkg: "ratelimit", Harness: "VerifC13Set", Params: p("tpt", 0), SkipInc: true, TimeoutS: 120, IncMs: 500, MapPermMax: 2, Inductive: true,
+				Bounds: "two buckets in arbitrary invariant-satisfying states (tpt symbolic in [1,2^36]), both map iteration orders, 0<=tokens<=2^21"})
+		}
 	}
 	return js
 }
